@@ -1318,13 +1318,34 @@ package asm
 //@ # tyOf(a): the IR type the syntax-tree type a denotes (up to type identity teq; irType builds a new object
 //@ # for every use of an unnamed type)
 //@ spec tyOf(a ast.LlvmNode) types.Type
+//@ # What a written type denotes (trusted transcription of the grammar's type forms, like teq itself): tyOf of a node is a
+//@ # type of the written kind with the written attributes whose components are tyOf of the node's components. Unfolded
+//@ # only where the marker tyu(a) occurs (the unfolding of a component would otherwise trigger itself).
+//@ spec tyu(a ast.LlvmNode) bool
+//@ axiom tyuTrue: forall(a ast.LlvmNode, tyu(a), pattern(tyu(a)))
+//@ axiom tyOfOld: forall(a ast.LlvmNode, allocated(ptrof(tyOf(a))), pattern(tyOf(a), tyu(a)))
+//@ axiom tyOfInt: forall(a ast.LlvmNode, typeis(a, "*ast.IntType") ==> typeis(tyOf(a), "*types.IntType") && cast(tyOf(a), "*types.IntType").BitSize == irBitSize(cast(a, "*ast.IntType")), pattern(tyOf(a), tyu(a)))
+//@ axiom tyOfPointer: forall(a ast.LlvmNode, typeis(a, "*ast.PointerType") ==> typeis(tyOf(a), "*types.PointerType") && cast(tyOf(a), "*types.PointerType").AddrSpace == ite(res1(cast(a, "*ast.PointerType").AddrSpace()), irAddrSpace(res0(cast(a, "*ast.PointerType").AddrSpace())), 0) && cast(tyOf(a), "*types.PointerType").ElemType == tyOf(cast(a, "*ast.PointerType").Elem()), pattern(tyOf(a), tyu(a)))
+//@ axiom tyOfVoid: forall(a ast.LlvmNode, typeis(a, "*ast.VoidType") ==> typeis(tyOf(a), "*types.VoidType"), pattern(tyOf(a), tyu(a)))
+//@ axiom tyOfMMX: forall(a ast.LlvmNode, typeis(a, "*ast.MMXType") ==> typeis(tyOf(a), "*types.MMXType"), pattern(tyOf(a), tyu(a)))
+//@ axiom tyOfLabel: forall(a ast.LlvmNode, typeis(a, "*ast.LabelType") ==> typeis(tyOf(a), "*types.LabelType"), pattern(tyOf(a), tyu(a)))
+//@ axiom tyOfToken: forall(a ast.LlvmNode, typeis(a, "*ast.TokenType") ==> typeis(tyOf(a), "*types.TokenType"), pattern(tyOf(a), tyu(a)))
+//@ axiom tyOfMetadata: forall(a ast.LlvmNode, typeis(a, "*ast.MetadataType") ==> typeis(tyOf(a), "*types.MetadataType"), pattern(tyOf(a), tyu(a)))
+//@ axiom tyOfFloat: forall(a ast.LlvmNode, typeis(a, "*ast.FloatType") ==> typeis(tyOf(a), "*types.FloatType") && cast(tyOf(a), "*types.FloatType").Kind == enum.FloatKindFromString(cast(a, "*ast.FloatType").FloatKind().Text()), pattern(tyOf(a), tyu(a)))
+//@ axiom tyOfVector: forall(a ast.LlvmNode, typeis(a, "*ast.VectorType") ==> typeis(tyOf(a), "*types.VectorType") && !cast(tyOf(a), "*types.VectorType").Scalable && cast(tyOf(a), "*types.VectorType").Len == uintLit(cast(a, "*ast.VectorType").Len()) && cast(tyOf(a), "*types.VectorType").ElemType == tyOf(cast(a, "*ast.VectorType").Elem()), pattern(tyOf(a), tyu(a)))
+//@ axiom tyOfScalableVector: forall(a ast.LlvmNode, typeis(a, "*ast.ScalableVectorType") ==> typeis(tyOf(a), "*types.VectorType") && cast(tyOf(a), "*types.VectorType").Scalable && cast(tyOf(a), "*types.VectorType").Len == uintLit(cast(a, "*ast.ScalableVectorType").Len()) && cast(tyOf(a), "*types.VectorType").ElemType == tyOf(cast(a, "*ast.ScalableVectorType").Elem()), pattern(tyOf(a), tyu(a)))
+//@ axiom tyOfArray: forall(a ast.LlvmNode, typeis(a, "*ast.ArrayType") ==> typeis(tyOf(a), "*types.ArrayType") && cast(tyOf(a), "*types.ArrayType").Len == uintLit(cast(a, "*ast.ArrayType").Len()) && cast(tyOf(a), "*types.ArrayType").ElemType == tyOf(cast(a, "*ast.ArrayType").Elem()), pattern(tyOf(a), tyu(a)))
+//@ axiom tyOfStruct: forall(a ast.LlvmNode, typeis(a, "*ast.StructType") ==> typeis(tyOf(a), "*types.StructType") && len(cast(tyOf(a), "*types.StructType").TypeName) == 0 && !cast(tyOf(a), "*types.StructType").Packed && allocated(cast(tyOf(a), "*types.StructType").Fields) && len(cast(tyOf(a), "*types.StructType").Fields) == len(cast(a, "*ast.StructType").Fields()) && forall(k, 0, len(cast(a, "*ast.StructType").Fields()), cast(tyOf(a), "*types.StructType").Fields[k] == tyOf(cast(a, "*ast.StructType").Fields()[k])), pattern(tyOf(a), tyu(a)))
+//@ axiom tyOfPackedStruct: forall(a ast.LlvmNode, typeis(a, "*ast.PackedStructType") ==> typeis(tyOf(a), "*types.StructType") && len(cast(tyOf(a), "*types.StructType").TypeName) == 0 && cast(tyOf(a), "*types.StructType").Packed && allocated(cast(tyOf(a), "*types.StructType").Fields) && len(cast(tyOf(a), "*types.StructType").Fields) == len(cast(a, "*ast.PackedStructType").Fields()) && forall(k, 0, len(cast(a, "*ast.PackedStructType").Fields()), cast(tyOf(a), "*types.StructType").Fields[k] == tyOf(cast(a, "*ast.PackedStructType").Fields()[k])), pattern(tyOf(a), tyu(a)))
+//@ axiom tyOfFunc: forall(a ast.LlvmNode, typeis(a, "*ast.FuncType") ==> typeis(tyOf(a), "*types.FuncType") && cast(tyOf(a), "*types.FuncType").RetType == tyOf(cast(a, "*ast.FuncType").RetType()) && cast(tyOf(a), "*types.FuncType").Variadic == res1(cast(a, "*ast.FuncType").Params().Variadic()) && allocated(cast(tyOf(a), "*types.FuncType").Params) && len(cast(tyOf(a), "*types.FuncType").Params) == len(cast(a, "*ast.FuncType").Params().Params()) && forall(k, 0, len(cast(a, "*ast.FuncType").Params().Params()), cast(tyOf(a), "*types.FuncType").Params[k] == tyOf(cast(a, "*ast.FuncType").Params().Params()[k].Typ())), pattern(tyOf(a), tyu(a)))
 //@ # tkind(t, a): the IR type t is of the kind the written type a asks for (a named type is whatever it was defined as)
 //@ macro tkind(t types.Type, a ast.LlvmNode) bool = (typeis(a, "*ast.VoidType") ==> typeis(t, "*types.VoidType")) && (typeis(a, "*ast.FuncType") ==> typeis(t, "*types.FuncType")) && (typeis(a, "*ast.IntType") ==> typeis(t, "*types.IntType")) && (typeis(a, "*ast.FloatType") ==> typeis(t, "*types.FloatType")) && (typeis(a, "*ast.MMXType") ==> typeis(t, "*types.MMXType")) && (typeis(a, "*ast.PointerType") ==> typeis(t, "*types.PointerType")) && ((typeis(a, "*ast.VectorType") || typeis(a, "*ast.ScalableVectorType")) ==> typeis(t, "*types.VectorType")) && (typeis(a, "*ast.LabelType") ==> typeis(t, "*types.LabelType")) && (typeis(a, "*ast.TokenType") ==> typeis(t, "*types.TokenType")) && (typeis(a, "*ast.MetadataType") ==> typeis(t, "*types.MetadataType")) && (typeis(a, "*ast.ArrayType") ==> typeis(t, "*types.ArrayType")) && ((typeis(a, "*ast.OpaqueType") || typeis(a, "*ast.StructType") || typeis(a, "*ast.PackedStructType")) ==> typeis(t, "*types.StructType"))
 //@ # tattr(t, a): the attributes that tell apart written types of one IR kind: scalability of vectors, packedness of structs
 //@ macro tattr(t types.Type, a ast.LlvmNode) bool = (typeis(a, "*ast.VectorType") ==> !cast(t, "*types.VectorType").Scalable) && (typeis(a, "*ast.ScalableVectorType") ==> cast(t, "*types.VectorType").Scalable) && (typeis(a, "*ast.StructType") ==> !cast(t, "*types.StructType").Packed && !cast(t, "*types.StructType").Opaque) && (typeis(a, "*ast.PackedStructType") ==> cast(t, "*types.StructType").Packed && !cast(t, "*types.StructType").Opaque)
 //@ # irType builds a new type for every use of a written type (verified: of the kind the node asks for, see the
-//@ # one-level contracts of the translators below). Its last clause DEFINES tyOf: tyOf(a) is the type irType
-//@ # returns for a, up to type identity -- assumed, not verified: that irType is a function of the node up to teq.
+//@ # one-level contracts of the translators below) and the type the written form denotes (tyOf, axiomatised per kind
+//@ # above) up to type identity. For a written %name the last clause DEFINES tyOf: the type a name denotes is the
+//@ # indexed definition -- assumed, not verified.
 //@ func (*generator).irType
 //@   props C04 C06 C16
 //@   partial
@@ -1332,7 +1353,8 @@ package asm
 //@   assigns nothing
 //@   ensures result1 == nil ==> tkind(result0, old) && (!typeis(old, "*ast.NamedType") ==> result0 != nil) && tattr(result0, old)
 //@   ensures result1 == nil && typeis(old, "*ast.NamedType") ==> result0 == gen.new.typeDefs[getTypeName(localIdent(cast(old, "*ast.NamedType").Name()))]
-//@   assumed ensures result1 == nil ==> result0 != nil && teq(result0, tyOf(old)) && unfold(result0)
+//@   ensures result1 == nil && !typeis(old, "*ast.NamedType") ==> result0 != nil && teq(result0, tyOf(old)) && unfold(result0)
+//@   assumed ensures result1 == nil && typeis(old, "*ast.NamedType") ==> result0 != nil && teq(result0, tyOf(old)) && unfold(result0)
 //@ func (*generator).irTypeDef
 //@   props C04 C06 C16
 //@   partial
@@ -1342,6 +1364,7 @@ package asm
 //@     assigns nothing
 //@     ensures result1 == nil ==> tkind(result0, old) && (!typeis(old, "*ast.NamedType") ==> result0 != nil) && tattr(result0, old)
 //@     ensures result1 == nil && typeis(old, "*ast.NamedType") ==> result0 == gen.new.typeDefs[getTypeName(localIdent(cast(old, "*ast.NamedType").Name()))]
+//@     ensures result1 == nil && !typeis(old, "*ast.NamedType") ==> result0 != nil && teq(result0, tyOf(old)) && unfold(result0)
 //@   # alias: a definition whose body is another named type is looked up, nothing is written (known finding of C04)
 //@   behaviour alias:
 //@     requires t != nil && typeis(old, "*ast.NamedType")
@@ -1827,6 +1850,8 @@ package asm
 //@   assigns nothing
 //@   ensures result1 == nil && typeis(result0, "*types.VoidType") && cast(result0, "*types.VoidType") != nil
 //@   ensures t == nil ==> fresh(cast(result0, "*types.VoidType")) && len(cast(result0, "*types.VoidType").TypeName) == 0
+//@   finalheap teq, tyOf
+//@   ensures t == nil ==> tyu(boxed(old)) && unfold(result0) && teq(result0, tyOf(boxed(old)))
 //@   ensures t != nil ==> result0 == t
 //@ func (*generator).irMMXType
 //@   props C06 C16
@@ -1835,6 +1860,8 @@ package asm
 //@   assigns nothing
 //@   ensures result1 == nil && typeis(result0, "*types.MMXType") && cast(result0, "*types.MMXType") != nil
 //@   ensures t == nil ==> fresh(cast(result0, "*types.MMXType")) && len(cast(result0, "*types.MMXType").TypeName) == 0
+//@   finalheap teq, tyOf
+//@   ensures t == nil ==> tyu(boxed(old)) && unfold(result0) && teq(result0, tyOf(boxed(old)))
 //@   ensures t != nil ==> result0 == t
 //@ func (*generator).irLabelType
 //@   props C06 C16
@@ -1843,6 +1870,8 @@ package asm
 //@   assigns nothing
 //@   ensures result1 == nil && typeis(result0, "*types.LabelType") && cast(result0, "*types.LabelType") != nil
 //@   ensures t == nil ==> fresh(cast(result0, "*types.LabelType")) && len(cast(result0, "*types.LabelType").TypeName) == 0
+//@   finalheap teq, tyOf
+//@   ensures t == nil ==> tyu(boxed(old)) && unfold(result0) && teq(result0, tyOf(boxed(old)))
 //@   ensures t != nil ==> result0 == t
 //@ func (*generator).irTokenType
 //@   props C06 C16
@@ -1851,6 +1880,8 @@ package asm
 //@   assigns nothing
 //@   ensures result1 == nil && typeis(result0, "*types.TokenType") && cast(result0, "*types.TokenType") != nil
 //@   ensures t == nil ==> fresh(cast(result0, "*types.TokenType")) && len(cast(result0, "*types.TokenType").TypeName) == 0
+//@   finalheap teq, tyOf
+//@   ensures t == nil ==> tyu(boxed(old)) && unfold(result0) && teq(result0, tyOf(boxed(old)))
 //@   ensures t != nil ==> result0 == t
 //@ func (*generator).irMetadataType
 //@   props C06 C16
@@ -1859,6 +1890,8 @@ package asm
 //@   assigns nothing
 //@   ensures result1 == nil && typeis(result0, "*types.MetadataType") && cast(result0, "*types.MetadataType") != nil
 //@   ensures t == nil ==> fresh(cast(result0, "*types.MetadataType")) && len(cast(result0, "*types.MetadataType").TypeName) == 0
+//@   finalheap teq, tyOf
+//@   ensures t == nil ==> tyu(boxed(old)) && unfold(result0) && teq(result0, tyOf(boxed(old)))
 //@   ensures t != nil ==> result0 == t
 //@ func (*generator).irIntType
 //@   props C06 C16
@@ -1869,6 +1902,8 @@ package asm
 //@     assigns nothing
 //@     ensures result1 == nil ==> typeis(result0, "*types.IntType") && cast(result0, "*types.IntType") != nil && fresh(cast(result0, "*types.IntType")) && len(cast(result0, "*types.IntType").TypeName) == 0
 //@     ensures result1 == nil ==> cast(result0, "*types.IntType").BitSize == irBitSize(old)
+//@     finalheap teq, tyOf
+//@     ensures result1 == nil ==> tyu(boxed(old)) && unfold(result0) && teq(result0, tyOf(boxed(old)))
 //@     ensures result1 != nil ==> result0 == nil
 //@   behaviour fill:
 //@     requires t != nil
@@ -1885,6 +1920,8 @@ package asm
 //@     assigns nothing
 //@     ensures result1 == nil ==> typeis(result0, "*types.FloatType") && cast(result0, "*types.FloatType") != nil && fresh(cast(result0, "*types.FloatType")) && len(cast(result0, "*types.FloatType").TypeName) == 0
 //@     ensures result1 == nil ==> cast(result0, "*types.FloatType").Kind == enum.FloatKindFromString(old.FloatKind().Text())
+//@     finalheap teq, tyOf
+//@     ensures result1 == nil ==> tyu(boxed(old)) && unfold(result0) && teq(result0, tyOf(boxed(old)))
 //@     ensures result1 != nil ==> result0 == nil
 //@   behaviour fill:
 //@     requires t != nil
@@ -1902,6 +1939,8 @@ package asm
 //@     ensures result1 == nil ==> typeis(result0, "*types.PointerType") && cast(result0, "*types.PointerType") != nil && fresh(cast(result0, "*types.PointerType")) && len(cast(result0, "*types.PointerType").TypeName) == 0
 //@     ensures result1 == nil ==> cast(result0, "*types.PointerType").ElemType != nil && teq(cast(result0, "*types.PointerType").ElemType, tyOf(old.Elem()))
 //@     ensures result1 == nil ==> cast(result0, "*types.PointerType").AddrSpace == ite(res1(old.AddrSpace()), irAddrSpace(res0(old.AddrSpace())), 0)
+//@     finalheap teq, tyOf
+//@     ensures result1 == nil ==> tyu(boxed(old)) && unfold(result0) && teq(result0, tyOf(boxed(old)))
 //@     ensures result1 != nil ==> result0 == nil
 //@   behaviour fill:
 //@     requires t != nil
@@ -1919,6 +1958,8 @@ package asm
 //@     assigns nothing
 //@     ensures result1 == nil ==> typeis(result0, "*types.VectorType") && cast(result0, "*types.VectorType") != nil && fresh(cast(result0, "*types.VectorType")) && len(cast(result0, "*types.VectorType").TypeName) == 0
 //@     ensures result1 == nil ==> !cast(result0, "*types.VectorType").Scalable && cast(result0, "*types.VectorType").Len == uintLit(old.Len()) && cast(result0, "*types.VectorType").ElemType != nil && teq(cast(result0, "*types.VectorType").ElemType, tyOf(old.Elem()))
+//@     finalheap teq, tyOf
+//@     ensures result1 == nil ==> tyu(boxed(old)) && unfold(result0) && teq(result0, tyOf(boxed(old)))
 //@     ensures result1 != nil ==> result0 == nil
 //@   behaviour fill:
 //@     requires t != nil
@@ -1935,6 +1976,8 @@ package asm
 //@     assigns nothing
 //@     ensures result1 == nil ==> typeis(result0, "*types.VectorType") && cast(result0, "*types.VectorType") != nil && fresh(cast(result0, "*types.VectorType")) && len(cast(result0, "*types.VectorType").TypeName) == 0
 //@     ensures result1 == nil ==> cast(result0, "*types.VectorType").Scalable && cast(result0, "*types.VectorType").Len == uintLit(old.Len()) && cast(result0, "*types.VectorType").ElemType != nil && teq(cast(result0, "*types.VectorType").ElemType, tyOf(old.Elem()))
+//@     finalheap teq, tyOf
+//@     ensures result1 == nil ==> tyu(boxed(old)) && unfold(result0) && teq(result0, tyOf(boxed(old)))
 //@     ensures result1 != nil ==> result0 == nil
 //@   behaviour fill:
 //@     requires t != nil
@@ -1951,6 +1994,8 @@ package asm
 //@     assigns nothing
 //@     ensures result1 == nil ==> typeis(result0, "*types.ArrayType") && cast(result0, "*types.ArrayType") != nil && fresh(cast(result0, "*types.ArrayType")) && len(cast(result0, "*types.ArrayType").TypeName) == 0
 //@     ensures result1 == nil ==> cast(result0, "*types.ArrayType").Len == uintLit(old.Len()) && cast(result0, "*types.ArrayType").ElemType != nil && teq(cast(result0, "*types.ArrayType").ElemType, tyOf(old.Elem()))
+//@     finalheap teq, tyOf
+//@     ensures result1 == nil ==> tyu(boxed(old)) && unfold(result0) && teq(result0, tyOf(boxed(old)))
 //@     ensures result1 != nil ==> result0 == nil
 //@   behaviour fill:
 //@     requires t != nil
@@ -1968,6 +2013,8 @@ package asm
 //@     ensures result1 == nil ==> typeis(result0, "*types.StructType") && cast(result0, "*types.StructType") != nil && fresh(cast(result0, "*types.StructType")) && len(cast(result0, "*types.StructType").TypeName) == 0
 //@     ensures result1 == nil ==> !cast(result0, "*types.StructType").Packed && !cast(result0, "*types.StructType").Opaque && len(cast(result0, "*types.StructType").Fields) == len(old.Fields())
 //@     ensures result1 == nil ==> forall(k, 0, len(cast(result0, "*types.StructType").Fields), cast(result0, "*types.StructType").Fields[k] != nil && teq(cast(result0, "*types.StructType").Fields[k], tyOf(old.Fields()[k])))
+//@     finalheap teq, tyOf
+//@     ensures result1 == nil ==> tyu(boxed(old)) && unfold(result0) && teq(result0, tyOf(boxed(old)))
 //@     ensures result1 != nil ==> result0 == nil
 //@     loop 0: invariant 0 <= range_i && range_i <= len(oldFields) && typ != nil && len(typ.Fields) == len(oldFields) && fresh(typ.Fields)
 //@     loop 0: invariant len(oldFields) == len(old.Fields()) && forall(k, 0, len(oldFields), oldFields[k] == old.Fields()[k])
@@ -1993,6 +2040,8 @@ package asm
 //@     ensures result1 == nil ==> typeis(result0, "*types.StructType") && cast(result0, "*types.StructType") != nil && fresh(cast(result0, "*types.StructType")) && len(cast(result0, "*types.StructType").TypeName) == 0
 //@     ensures result1 == nil ==> cast(result0, "*types.StructType").Packed && !cast(result0, "*types.StructType").Opaque && len(cast(result0, "*types.StructType").Fields) == len(old.Fields())
 //@     ensures result1 == nil ==> forall(k, 0, len(cast(result0, "*types.StructType").Fields), cast(result0, "*types.StructType").Fields[k] != nil && teq(cast(result0, "*types.StructType").Fields[k], tyOf(old.Fields()[k])))
+//@     finalheap teq, tyOf
+//@     ensures result1 == nil ==> tyu(boxed(old)) && unfold(result0) && teq(result0, tyOf(boxed(old)))
 //@     ensures result1 != nil ==> result0 == nil
 //@     loop 0: invariant 0 <= range_i && range_i <= len(oldFields) && typ != nil && len(typ.Fields) == len(oldFields) && fresh(typ.Fields)
 //@     loop 0: invariant len(oldFields) == len(old.Fields()) && forall(k, 0, len(oldFields), oldFields[k] == old.Fields()[k])
@@ -2018,6 +2067,8 @@ package asm
 //@     ensures result1 == nil ==> typeis(result0, "*types.FuncType") && cast(result0, "*types.FuncType") != nil && fresh(cast(result0, "*types.FuncType")) && len(cast(result0, "*types.FuncType").TypeName) == 0
 //@     ensures result1 == nil ==> cast(result0, "*types.FuncType").RetType != nil && teq(cast(result0, "*types.FuncType").RetType, tyOf(old.RetType())) && cast(result0, "*types.FuncType").Variadic == res1(old.Params().Variadic()) && len(cast(result0, "*types.FuncType").Params) == len(old.Params().Params())
 //@     ensures result1 == nil ==> forall(k, 0, len(cast(result0, "*types.FuncType").Params), cast(result0, "*types.FuncType").Params[k] != nil && teq(cast(result0, "*types.FuncType").Params[k], tyOf(old.Params().Params()[k].Typ())))
+//@     finalheap teq, tyOf
+//@     ensures result1 == nil ==> tyu(boxed(old)) && unfold(result0) && teq(result0, tyOf(boxed(old)))
 //@     ensures result1 != nil ==> result0 == nil
 //@     loop 0: invariant 0 <= range_i && range_i <= len(oldParams) && typ != nil && len(typ.Params) == len(oldParams) && fresh(typ.Params) && typ.RetType != nil && teq(typ.RetType, tyOf(old.RetType()))
 //@     loop 0: invariant forall(k, 0, range_i, typ.Params[k] != nil && teq(typ.Params[k], tyOf(oldParams[k].Typ())))
